@@ -11,6 +11,10 @@ os.makedirs("/tmp/reseed", exist_ok=True)
 if not os.path.exists(wt):
     subprocess.run(["/verif/tools/mkworktree.sh", wt], check=True, stdout=subprocess.DEVNULL)
 dirs = sorted(glob.glob("/verif/seeded/*/"))
+skip = set()
+if os.environ.get("RESEED_DONE") and os.path.exists(os.environ["RESEED_DONE"]):
+    skip = {l.split()[0] for l in open(os.environ["RESEED_DONE"]) if l.strip()}
+dirs = [d for d in dirs if os.path.basename(d.rstrip("/")) not in skip]
 for i, d in enumerate(dirs):
     if i % n != k:
         continue
